@@ -54,6 +54,8 @@ type MapIter struct {
 	VSort   Sort
 	Visited string // function symbol K -> Bool
 	MapType *types.Map
+	Count   Term   // number of keys produced so far
+	StartDom string // version of the domain family when the iteration started
 }
 
 type State struct {
